@@ -59,6 +59,10 @@ pub struct Send {
     /// the receiving module sends the very message object it received back over the chain
     #[serde(default)]
     pub echo: bool,
+    /// the handler sends a second message of the same size (seq + 1000) right behind this one: on every hop with a
+    /// transmission time the second is queued behind the first (only on chains without jitter, never proxy / echo)
+    #[serde(default)]
+    pub twin: bool,
 }
 
 #[derive(Debug, Clone, Serialize, Deserialize, PartialEq)]
@@ -102,6 +106,8 @@ struct Arrival {
 
 thread_local! {
     static ARRIVALS: RefCell<Vec<Arrival>> = const { RefCell::new(Vec::new()) };
+    /// seqs whose sender sends a twin right behind them
+    static TWINS: RefCell<Vec<u64>> = const { RefCell::new(Vec::new()) };
     /// the two end gates of the chain, for sends made by the proxy module
     static END_GATES: RefCell<Vec<GateRef>> = const { RefCell::new(Vec::new()) };
     /// sequence numbers to be echoed, and those that were echoed already
@@ -140,10 +146,20 @@ impl Module for Node {
                 if self.shutdown_after_last && msg.header().id as usize + 1 == self.plan.len() {
                     current().shutdown();
                 }
-            } else if delay > 0 {
-                send_in(out, (name.as_str(), pos), Duration::from_nanos(delay));
             } else {
-                send(out, (name.as_str(), pos));
+                let twin = TWINS.with(|t| t.borrow().contains(&seq));
+                let second = twin.then(|| Message::default().with_content(Pay { seq: seq + 1000, size: body }));
+                if delay > 0 {
+                    send_in(out, (name.as_str(), pos), Duration::from_nanos(delay));
+                    if let Some(m) = second {
+                        send_in(m, (name.as_str(), pos), Duration::from_nanos(delay));
+                    }
+                } else {
+                    send(out, (name.as_str(), pos));
+                    if let Some(m) = second {
+                        send(m, (name.as_str(), pos));
+                    }
+                }
             }
             return;
         }
@@ -213,6 +229,7 @@ pub struct Obs {
     pub third_peer_rejections: u64,
     pub proxy_sends: u64,
     pub echoes: u64,
+    pub twins: u64,
 }
 
 fn gate_id(case: &Case, g: &GateRef) -> Option<usize> {
@@ -302,6 +319,7 @@ pub fn execute(case: &Case) -> (Vec<Finding>, Obs) {
         ids.push(sim.get(&"px".into()).map_or(u16::MAX, |m| m.id().0));
         END_GATES.with(|g| *g.borrow_mut() = vec![gates[0].clone(), gates[k].clone()]);
         ECHO.with(|e| *e.borrow_mut() = (case.sends.iter().filter(|s| s.echo).map(|s| s.seq).collect(), Vec::new()));
+        TWINS.with(|t| *t.borrow_mut() = case.sends.iter().filter(|s| s.twin).map(|s| s.seq).collect());
 
         // connect calls in the generated order
         let mut connected = vec![false; k];
@@ -452,6 +470,28 @@ pub fn execute(case: &Case) -> (Vec<Finding>, Obs) {
             f.push(("wrong-receiver", format!("message {} sent on gate {src} was handled by module m{}, the far end gate {dst} belongs to m{want_module}", s.seq, a.module)));
             continue;
         }
+        if s.twin {
+            // the second message is queued behind the first on every hop with a transmission time (tandem of FIFO queues)
+            let order: Vec<&Hop> = if s.reverse { case.hops.iter().rev().collect() } else { case.hops.iter().collect() };
+            let (mut a1, mut a2) = (s.time_ns + s.delay_ns, s.time_ns + s.delay_ns);
+            for h in order {
+                if let Some((bitrate, lat)) = h.channel {
+                    let tx = tx_ns(s.body + HEADER, bitrate);
+                    let s2 = a2.max(a1 + tx);
+                    a1 += tx + lat;
+                    a2 = s2 + tx + lat;
+                }
+            }
+            let twins: Vec<&Arrival> = arrivals.iter().filter(|x| x.seq == s.seq + 1000).collect();
+            obs.twins += 1;
+            if twins.len() != 1 {
+                f.push(("delivery-count", format!("message {} (sent right behind message {} on gate {src}) was delivered {} times (to modules {:?})", s.seq + 1000, s.seq, twins.len(), twins.iter().map(|x| x.module).collect::<Vec<_>>())));
+            } else if twins[0].module != want_module {
+                f.push(("wrong-receiver", format!("message {} (sent right behind message {}) was handled by module m{}, the far end belongs to m{want_module}", s.seq + 1000, s.seq, twins[0].module)));
+            } else if twins[0].t != a2 {
+                f.push(("arrival-time", format!("message {} sent right behind message {} at {} ns: queued behind it on every transmitting hop it must arrive at {a2} ns, observed {} ns", s.seq + 1000, s.seq, s.time_ns + s.delay_ns, twins[0].t)));
+            }
+        }
         let jit = path_jitter(case);
         if a.t < want_t || a.t > want_t + jit {
             f.push((
@@ -511,7 +551,7 @@ pub fn execute(case: &Case) -> (Vec<Finding>, Obs) {
             }
         }
     }
-    let expected_arrivals = case.sends.len() + case.sends.iter().filter(|s| s.echo).count();
+    let expected_arrivals = case.sends.len() + case.sends.iter().filter(|s| s.echo).count() + case.sends.iter().filter(|s| s.twin).count();
     if arrivals.len() != expected_arrivals && f.is_empty() {
         f.push(("phantom", format!("{} arrivals for {} sends ({} expected)", arrivals.len(), case.sends.len(), expected_arrivals)));
     }
@@ -610,10 +650,13 @@ pub fn gen_case(rng: &mut Rng, k: usize, order: Option<(Vec<usize>, u32)>) -> Ca
         let body = *rng.pick(&[0usize, 1, 448, 1436]);
         let delay_ns = if rng.chance(1, 3) { 1 + rng.below(2_000_000_000) } else { 0 };
         let echo = rng.chance(1, 4);
-        sends.push(Send { time_ns: t, reverse: rng.chance(1, 2), body, delay_ns, seq, proxy: rng.chance(1, 5), echo });
+        let proxy = rng.chance(1, 5);
+        let jitter_free = hops.iter().all(|h| h.channel.is_none() || h.jitter_ns == 0);
+        let twin = !proxy && !echo && jitter_free && rng.chance(1, 3);
+        sends.push(Send { time_ns: t, reverse: rng.chance(1, 2), body, delay_ns, seq, proxy, echo, twin });
         // uncontended: the next message is sent after this one has arrived (and come back)
         let one_way: u64 = hops.iter().filter(|h| h.channel.is_some()).map(|h| h.channel.map_or(0, |(b, l)| l + tx_ns(1500, b)) + h.jitter_ns).sum::<u64>();
-        let gap: u64 = one_way * (1 + u64::from(echo)) + delay_ns + 1 + rng.below(1000);
+        let gap: u64 = one_way * (1 + u64::from(echo) + u64::from(twin)) + delay_ns + 1 + rng.below(1000);
         t += gap;
     }
     let proxy_shutdown = rng.chance(1, 3);
@@ -689,6 +732,7 @@ pub fn cmd(args: &Args) -> Report {
         rep.count("third_peer_rejections", obs.third_peer_rejections);
         rep.count("sends_by_a_third_module_through_a_gate_reference", obs.proxy_sends);
         rep.count("messages_echoed_back_over_the_chain", obs.echoes);
+        rep.count("messages_sent_right_behind_another_and_queued_on_the_way", obs.twins);
         if case.proxy_shutdown && case.sends.iter().any(|s| s.proxy) {
             rep.count("chains_whose_third_module_shuts_down_in_the_event_of_its_last_send", 1);
         }
